@@ -578,6 +578,7 @@ def removesmall(v, tol=100):
         >>> print(a[3])
 
     """
+    v = np.asarray(v)  # array_like: a list or tuple has no abs()
     return np.where(abs(v) < tol * _eps, 0, v)
 
 
